@@ -1078,6 +1078,50 @@ Proof.
       subst v. apply smem_In in Hv. congruence.
 Qed.
 
+(* ================================================================== I: add_edge (edge + blockers on the triangles it would close) *)
+Definition wf_blk (c : cplx) : Prop := forall b, In b (blk c) -> NoDup b /\ (3 <= length b)%nat.
+Definition wf_edg (c : cplx) : Prop := forall e, In e (edg c) -> fst e < snd e.
+
+Lemma sort_set_In x l : In x (sort_set l) <-> In x l.
+Proof.
+  unfold sort_set. induction l as [|y l IH]; simpl; [tauto|]. rewrite sinsert_In, IH. intuition.
+Qed.
+
+Lemma nbrs_has_edge c x w : wf_edg c -> (In w (nbrs c x) <-> has_edge c x w = true).
+Proof.
+  intros Hw. unfold nbrs, has_edge. rewrite sort_set_In, in_flat_map, existsb_exists. split.
+  - intros [e [He Hin]]. exists e. split; auto. specialize (Hw e He). unfold edge_is.
+    destruct (Z.eqb_spec (fst e) x) as [E1|N1].
+    + destruct Hin as [<-|[]]. apply andb_true_iff. rewrite !Z.eqb_eq. lia.
+    + destruct (Z.eqb_spec (snd e) x) as [E2|N2]; [|destruct Hin].
+      destruct Hin as [<-|[]]. apply andb_true_iff. rewrite !Z.eqb_eq. lia.
+  - intros [e [He Hedge]]. exists e. split; auto. specialize (Hw e He). unfold edge_is in Hedge.
+    apply andb_true_iff in Hedge. rewrite !Z.eqb_eq in Hedge.
+    destruct (Z.eqb_spec (fst e) x) as [E1|N1].
+    + left. lia.
+    + destruct (Z.eqb_spec (snd e) x) as [E2|N2]; [left; lia | exfalso; lia].
+Qed.
+
+Lemma fold_add_blocker_In L : forall c,
+  let c2 := fold_left add_blocker L c in
+  slots c2 = slots c /\ act c2 = act c /\ edg c2 = edg c /\
+  forall b, In b (blk c2) <-> In b (blk c) \/ In b L.
+Proof.
+  induction L as [|s L IH]; intros c; simpl.
+  - repeat split; auto. intros [H|[]]; auto.
+  - destruct (IH (add_blocker c s)) as [H1 [H2 [H3 H4]]].
+    assert (Ha : slots (add_blocker c s) = slots c /\ act (add_blocker c s) = act c /\ edg (add_blocker c s) = edg c /\
+                 forall b, In b (blk (add_blocker c s)) <-> In b (blk c) \/ b = s).
+    { unfold add_blocker. destruct (contains_blocker c s) eqn:E; simpl; repeat split; auto.
+      - intros [H| ->]; auto. unfold contains_blocker in E. destruct (dim s <? 2); [discriminate|].
+        apply lmem_In in E. unfold blockers_at in E. apply filter_In in E. tauto.
+      - intros H. apply in_app_iff in H. destruct H as [H|[<-|[]]]; auto.
+      - intros [H| ->]; apply in_app_iff; [left; auto | right; left; auto]. }
+    destruct Ha as [A1 [A2 [A3 A4]]]. repeat split; try congruence.
+    + intros H. apply H4 in H. destruct H as [H|H]; auto. apply A4 in H. destruct H as [H|H]; [auto | subst b; auto].
+    + intros [H|[<-|H]]; apply H4; auto; left; apply A4; auto.
+Qed.
+
 (* ================================================================== witnesses *)
 (* boundary of the tetrahedron 0123 built through the transcribed operations *)
 Definition complete4 : cplx :=
